@@ -92,7 +92,7 @@ def check(case):
                 lab += ["boundary_infeasible", "nt"]
         return lab
     lab.append("feasible")
-    draws = len(seeds) * K
+    draws = len(set(seeds)) * K          # identical seeds repeat the same draw: only distinct seeds count as independent
     if K >= 1 and lo is not None:
         nsz = hi - lo + 1
         # every size of the range occurs: miss probability of one size <= (1-1/nsz)^draws
@@ -144,7 +144,10 @@ def big_case(draw):
 
 
 LARGE = [(61, 500, 3, True), (100, 400, 4, True), (250, 40, 12, True), (250, 20, 12, False), (600, 20, [5, 29], False),
-         (600, 300, [3, 12], True), (130, 30, 4, False), (1000, 200, 5, True)]
+         (600, 300, [3, 12], True), (130, 30, 4, False), (1000, 200, 5, True),
+         # sizes just below p/20, p/10, p/2 (where an implementation may switch sampling strategies)
+         (1000, 200, 49, True), (2000, 100, 99, True), (400, 300, 19, True), (900, 15, [40, 44], False),
+         (300, 200, 29, True), (300, 2, 149, False), (64, 300, 31, True)]
 
 
 def plan(tier, seed):
